@@ -8,6 +8,7 @@ import (
 	"context"
 	"errors"
 	"fmt"
+	"io"
 	"runtime"
 	"sort"
 	"strings"
@@ -23,9 +24,9 @@ import (
 
 type unitCfg struct {
 	Name string `json:"name"`
-	Kind string `json:"kind"` // ok | error | panic
+	Kind string `json:"kind"` // ok | error | panic | eof | canceled | deadline (errors wrapping io.EOF / a context error)
 	Mode string `json:"mode"` // gate: returns when the driver releases it; ctx: when its context ends
-	Pre  string `json:"pre"`  // orchestrator members: new | running | finished
+	Pre  string `json:"pre"`  // orchestrator / group members: new | running | finished (started by the client itself before)
 }
 
 type ccfg struct {
@@ -97,19 +98,34 @@ func (w *c11World) body(u *unit, ctx context.Context) error {
 	w.rec.Log(rt.Event{"ev": "cb_exit", "fn": u.cfg.Name, "out": u.cfg.Kind})
 	u.exit.Add(1)
 	switch u.cfg.Kind {
-	case "error":
-		return u.errV
+	case "ok":
+		return nil
 	case "panic":
 		panic(u.panV)
 	}
-	return nil
+	return u.errV
+}
+
+// failure builds the unit's own error value: a plain error, or one that wraps one of the errors
+// worker groups treat as stop signals (io.EOF, context.Canceled, context.DeadlineExceeded).
+// errors.Is(x, u.errV) identifies it by pointer in every case.
+func unitFailure(uc unitCfg) error {
+	switch uc.Kind {
+	case "eof":
+		return fmt.Errorf("verif: %s failed: %w", uc.Name, io.EOF)
+	case "canceled":
+		return fmt.Errorf("verif: %s failed: %w", uc.Name, context.Canceled)
+	case "deadline":
+		return fmt.Errorf("verif: %s failed: %w", uc.Name, context.DeadlineExceeded)
+	}
+	return errors.New("verif: " + uc.Name + " failed")
 }
 
 func newC11World(cfg ccfg) *c11World {
 	w := &c11World{cfg: cfg, g: rt.NewGates(), rec: &rt.Recorder{}, units: map[string]*unit{}}
 	w.ctx, w.cancel = context.WithCancel(context.Background())
 	for _, uc := range cfg.Units {
-		u := &unit{cfg: uc, errV: errors.New("verif: " + uc.Name + " failed"), panV: errors.New("verif: " + uc.Name + " panicked")}
+		u := &unit{cfg: uc, errV: unitFailure(uc), panV: errors.New("verif: " + uc.Name + " panicked")}
 		w.units[uc.Name] = u
 		w.order = append(w.order, uc.Name)
 		w.g.Arm("u:" + uc.Name)
@@ -123,6 +139,35 @@ func newC11World(cfg ccfg) *c11World {
 
 func (w *c11World) job(u *unit) fun.Worker {
 	return func(ctx context.Context) error { return w.body(u, ctx) }
+}
+
+// prestart brings the members the client started itself (pre = running / finished), each with a
+// context of its own, into their state before the behaviour begins.
+func (w *c11World) prestart() string {
+	for _, name := range w.order {
+		u := w.units[name]
+		if u.cfg.Pre == "new" || u.cfg.Pre == "" {
+			continue
+		}
+		xctx, xc := context.WithCancel(context.Background())
+		u.xcancel = xc
+		if err := u.svc.Start(xctx); err != nil {
+			return "pre-start failed: " + err.Error()
+		}
+		if u.cfg.Pre == "finished" {
+			rt.Quiesce()
+			if u.cfg.Mode == "ctx" {
+				xc()
+			} else {
+				w.g.ReleaseOne("u:" + name)
+			}
+			_ = u.svc.Wait()
+		}
+	}
+	if _, err := rt.Quiesce(); err != nil {
+		return "no quiescence during setup"
+	}
+	return ""
 }
 
 // aggregate result of a Wait: which unit sentinels errors.Is finds
@@ -190,39 +235,29 @@ func replayC11(n int, b cbeh) map[string]any {
 		m["hist"] = w.rec.Events()
 		return m
 	}
-	if runtime.NumCPU() < len(b.Cfg.Units) && b.Cfg.Comp == "cleanup" {
-		return inconclusive(n, "fewer CPUs than cleanup jobs: WorkerPerCPU would serialise them")
+	if b.Cfg.Comp == "cleanup" {
+		// the shutdown pool has one worker per CPU (runtime.NumCPU, fixed at process start):
+		// workers = 0 asks for at least as many CPUs as jobs, workers = k for exactly k
+		// (vh-srv replay-c11 ncpu=k pins the process accordingly)
+		if b.Cfg.Workers == 0 && runtime.NumCPU() < len(b.Cfg.Units) {
+			return inconclusive(n, "fewer CPUs than cleanup jobs: WorkerPerCPU would serialise them")
+		}
+		if b.Cfg.Workers > 0 && runtime.NumCPU() != b.Cfg.Workers {
+			return inconclusive(n, fmt.Sprintf("the behaviour needs runtime.NumCPU() = %d, have %d (run with ncpu=%d)", b.Cfg.Workers, runtime.NumCPU(), b.Cfg.Workers))
+		}
 	}
 	// --- set up the component under test
 	switch b.Cfg.Comp {
 	case "orch":
 		w.orch = &srv.Orchestrator{Name: "sut"}
 		w.sut = w.orch.Service()
-		for _, name := range w.order {
-			u := w.units[name]
-			if u.cfg.Pre == "new" {
-				continue
-			}
-			// the client started this member itself, with its own context
-			xctx, xc := context.WithCancel(context.Background())
-			u.xcancel = xc
-			if err := u.svc.Start(xctx); err != nil {
-				return res(inconclusive(n, "pre-start failed: "+err.Error()))
-			}
-			if u.cfg.Pre == "finished" {
-				rt.Quiesce()
-				if u.cfg.Mode == "ctx" {
-					xc()
-				} else {
-					w.g.ReleaseOne("u:" + name)
-				}
-				_ = u.svc.Wait()
-			}
-		}
-		if _, err := rt.Quiesce(); err != nil {
-			return res(inconclusive(n, "no quiescence during setup"))
+		if why := w.prestart(); why != "" {
+			return res(inconclusive(n, why))
 		}
 	case "group":
+		if why := w.prestart(); why != "" {
+			return res(inconclusive(n, why))
+		}
 		svcs := []*srv.Service{}
 		for _, name := range w.order {
 			svcs = append(svcs, w.units[name].svc)
@@ -368,13 +403,18 @@ func replayC11(n int, b cbeh) map[string]any {
 // client had started itself: it returned while one of them is still in flight, or the only
 // failures missing from its result are theirs.
 func (w *c11World) onlyFoundRunning(as []alt, r opRes) bool {
+	return w.onlyPre(as, r, func(pre string) bool { return pre == "running" })
+}
+
+// onlyPre: the non-conforming Wait is explained by members in the pre-states accepted by sel alone
+func (w *c11World) onlyPre(as []alt, r opRes, sel func(string) bool) bool {
 	if len(as) == 1 && as[0].K == "blocked" {
 		other := false
 		running := false
 		for _, name := range w.order {
 			u := w.units[name]
 			if u.enter.Load() > u.exit.Load() {
-				if u.cfg.Pre == "running" {
+				if sel(u.cfg.Pre) {
 					running = true
 				} else {
 					other = true
@@ -391,7 +431,7 @@ func (w *c11World) onlyFoundRunning(as []alt, r opRes) bool {
 	for _, a := range as {
 		for _, m := range a.Must {
 			if !have[m] {
-				if u := w.units[m[2:]]; u == nil || u.cfg.Pre != "running" {
+				if u := w.units[m[2:]]; u == nil || !sel(u.cfg.Pre) {
 					return false
 				}
 				found = true
@@ -439,6 +479,12 @@ func (w *c11World) compare(n, k int, comp string, st cstep, ops map[string]*rt.O
 					// both symptoms of one predicate: a member started while the group's context
 					// ended during the start phase is awaited
 					what = "member-started-during-cancel-not-awaited"
+				}
+				if comp == "group" && !w.holdUsed && w.onlyPre(e.Allow, r, func(pre string) bool { return pre == "running" || pre == "finished" }) {
+					// both symptoms of one predicate: a member that somebody else started before
+					// the group did (still running, or already finished) is awaited and its
+					// failure collected
+					what = "member-started-elsewhere-not-awaited"
 				}
 				if comp == "orch" && w.onlyFoundRunning(e.Allow, r) {
 					// both symptoms of one predicate: a service found already running is awaited
